@@ -309,6 +309,7 @@ func checkC20(c *Ctx) {
 	validateTraces(c, "SaveTrace", saveTraceCfg, items, 3000, false, func(it traceItem, res *TLCResult) {
 		c.Fail(Finding{Sig: "save-" + res.Violated, Input: it.Key, What: fmt.Sprintf("predicate %s of SaveTrace.tla fails: %s (%s)", res.Violated, truncate(string(it.Trace), 400), it.Key), Replay: it.Replay})
 	})
+	c20TwoPass(c)
 	c.Set("rule", "case = one package (1-3 files from ten sources, 1-2 directories, each file unedited, grown or shrunk by an edit) saved with a resolver failing while file i is printed (i = 0..n); non-trivial = a failure or an edit; distinct by package + edit mask + failure position")
 }
 
@@ -344,4 +345,72 @@ func init() {
 		}
 		return ""
 	}
+}
+
+// c20TwoPass: a package saved, edited, saved again, edited back, saved again (one Decorator, a fresh
+// Restorer inside every Save; the earlier saves have edited the import declarations of the trees).
+func c20TwoPass(c *Ctx) {
+	root, err := os.MkdirTemp("", "dstv-save2-")
+	if err != nil {
+		c.Infra(err.Error())
+		return
+	}
+	defer os.RemoveAll(root)
+	srcs := map[string]string{"a.go": "package pkg\n\nfunc A() {}\n", "b.go": "package pkg\n\nimport \"os\"\n\nvar B = os.Args\n"}
+	fset := token.NewFileSet()
+	d := decorator.NewDecoratorWithImports(fset, "example.com/pkg", goast.WithResolver(guess.New()))
+	pkg := &decorator.Package{Package: &packages.Package{PkgPath: "example.com/pkg"}, Decorator: d, Dir: root}
+	byName := map[string]*dst.File{}
+	for _, name := range []string{"a.go", "b.go"} {
+		p := filepath.Join(root, name)
+		os.WriteFile(p, []byte(srcs[name]), 0644)
+		af, err := parser.ParseFile(fset, p, nil, parser.ParseComments)
+		if err != nil {
+			c.Infra(err.Error())
+			return
+		}
+		df, err := d.DecorateFile(af)
+		if err != nil {
+			c.Infra(err.Error())
+			return
+		}
+		pkg.Syntax = append(pkg.Syntax, df)
+		byName[name] = df
+	}
+	read := func(name string) string {
+		b, _ := os.ReadFile(filepath.Join(root, name))
+		return string(b)
+	}
+	step := func(label string, want map[string]string) bool {
+		key := "save-edit-save|" + label
+		c.Eval(key, true)
+		var serr error
+		if msg := guard(func() { serr = pkg.SaveWithResolver(guess.New()) }); msg != "" || serr != nil {
+			c.Fail(Finding{Sig: "save-again-fails", Input: key, What: fmt.Sprintf("%s %v", msg, serr), Replay: obj{"kind": "none"}})
+			return false
+		}
+		for name, w := range want {
+			if got := read(name); got != w {
+				c.Fail(Finding{Sig: "save-again-wrong-contents", Input: key, What: fmt.Sprintf("%s on disk after step %q:\n%s\nexpected:\n%s", name, label, got, w), Replay: obj{"kind": "none"}})
+				return false
+			}
+		}
+		return true
+	}
+	if !step("unedited", srcs) {
+		return
+	}
+	fa := byName["a.go"].Decls[0].(*dst.FuncDecl)
+	fa.Body.List = append(fa.Body.List, &dst.ExprStmt{X: &dst.CallExpr{Fun: &dst.Ident{Name: "Println", Path: "fmt"}}})
+	withCall := "package pkg\n\nimport \"fmt\"\n\nfunc A() { fmt.Println() }\n"
+	if !step("reference added", map[string]string{"a.go": withCall, "b.go": srcs["b.go"]}) {
+		return
+	}
+	if !step("saved again", map[string]string{"a.go": withCall, "b.go": srcs["b.go"]}) {
+		return
+	}
+	fa.Body.List = nil
+	fb := byName["b.go"]
+	fb.Decls = fb.Decls[:1] // the import declaration stays in the tree, its only user goes
+	step("references removed", map[string]string{"a.go": srcs["a.go"], "b.go": "package pkg\n"})
 }
